@@ -51,7 +51,7 @@ def REQUIRED(tier):
 def _required(tier):
     return ["ops:seek_set", "ops:seek_cur", "ops:cread", "ops:creadinto", "position_checks", "content_checks",
             "regime:read_spans_two_boundaries", "regime:seek_back_over_boundary", "regime:creadinto_hits_end",
-            "regime:cread_past_end_raises", "regime:position_exactly_at_boundary", "read_block:in_range", "read_block:rejected", "regime:member_file_with_trailing_partial_sample", "regime:file_listed_twice", "regime:relative_names_then_chdir"]
+            "regime:cread_past_end_raises", "regime:position_exactly_at_boundary", "read_block:in_range", "read_block:rejected", "regime:member_file_with_trailing_partial_sample", "regime:file_listed_twice", "regime:relative_names_then_chdir", "giant_stream_ops", "regime:members_not_in_time_order"]
 
 
 def EXHAUSTIVE(tier):
@@ -74,11 +74,14 @@ def cases(tier, seed):
         if k % 3 == 2:     # "ragged" needs a sample wider than one item and a file to follow
             nch = sigfile.legal_nchans(nbits, 2 * max(1, 8 // nbits) + int(rng.integers(0, 7)))
             nfiles = max(nfiles, 2)
+        if k % 5 == 4:     # the non-contiguous sets are multi-file sets (their members need not be in time order)
+            nfiles = max(nfiles, 2)
         if k % 7 == 5:     # a duplicated member needs nothing; keep at least one distinct neighbour half of the time
             nfiles = max(nfiles, 1 + k % 2)
         split = [int(rng.integers(1, 20)) for _ in range(nfiles)]
         yield {"kind": "random", "nbits": nbits, "nchans": nch, "split": split, "hseed": int(seed) * 100003 + k, "n": 8, "len": hlen,
-               "contig": bool(k % 5 != 4) or tier == "quick", "ragged": k % 3 == 2, "dup": k % 7 == 5, "relchdir": k % 7 == 3}
+               "contig": bool(k % 5 != 4), "ragged": k % 3 == 2, "dup": k % 7 == 5, "relchdir": k % 7 == 3}
+    yield {"kind": "giant", "seed": int(seed)}
     for nbits in DEPTHS:
         for split in ([9], [4, 5], [2, 3, 4]):
             yield {"kind": "read_block", "nbits": nbits, "nchans": sigfile.legal_nchans(nbits, 2), "split": split, "dseed": int(seed)}
@@ -114,7 +117,8 @@ def _mk_stream(ctx, nbits, nchans, split, dseed, contig=True, ragged=False):
         paths, pos = [], 0
         for i, n in enumerate(split):
             p = os.path.join(d, f"in_{i}.fil")
-            sigfile.write_fil(p, X[pos : pos + n], nbits, tstart=58000.0 + 0.25 * i, rawdatafile="q" * (2 * i + 1))
+            # members of a non-contiguous set are not necessarily listed in time order: list order defines the stream
+            sigfile.write_fil(p, X[pos : pos + n], nbits, tstart=58000.0 + 0.25 * ((len(split) - i) if dseed % 2 else i), rawdatafile="q" * (2 * i + 1))
             paths.append(p)
             pos += n
     if ragged:
@@ -274,7 +278,89 @@ def run_history(ctx, hdr_sinfo, nbits, model, bounds, ops, case_rec):
     return True
 
 
+def _giant(case, ctx):
+    """A two-file stream of 2.4 GiB (sparse files): offsets, positions and reads beyond 2**31 bytes and in the second member."""
+    from sigpyproc.header import Header
+    from sigpyproc.io.fileio import FileReader
+    from sigpyproc.readers import FilReader
+
+    nch = 64
+    lens = [1288490188 // nch * nch, 1288490188 // nch * nch + 7 * nch]
+    d = os.path.join(ctx.tmp, "giant")
+    os.makedirs(d, exist_ok=True)
+    rng = np.random.default_rng([case["seed"], 2021])
+    marks = {}   # stream offset -> bytes
+    paths = []
+    base = 0
+    for i, L in enumerate(lens):
+        p = os.path.join(d, f"g{i}.fil")
+        hdr = sigfile.encode_header(sigfile.std_items(nchans=nch, nbits=8, tstart=58000.0 + i, rawdatafile="g" * (i + 1)))
+        with open(p, "wb") as fh:
+            fh.write(hdr)
+            fh.truncate(len(hdr) + L)
+            for off in ([0, L // 2 // nch * nch, L - 128] + ([(1 << 31) - 64 - base] if base < (1 << 31) < base + L else [])):
+                blob = rng.integers(1, 255, size=128, dtype=np.uint8).tobytes()
+                fh.seek(len(hdr) + off)
+                fh.write(blob)
+                marks[base + off] = blob
+        paths.append(p)
+        base += L
+    total = sum(lens)
+    one = dict(case)
+
+    def model(off, n):
+        out = bytearray(n)
+        for mo, blob in marks.items():
+            lo, hi = max(off, mo), min(off + n, mo + len(blob))
+            if lo < hi:
+                out[lo - off : hi - off] = blob[lo - mo : hi - mo]
+        return bytes(out)
+
+    try:
+        hdr = Header.from_sigproc(paths, check_contiguity=False)
+        rd = FileReader(hdr.stream_info, mode="r", nbits=8)
+        for off in sorted(marks) + [lens[0] - 5, (1 << 31) - 3, total - 128]:
+            for n in (128, 37):
+                if off + n > total:
+                    continue
+                ctx.evaluated(); ctx.count("giant_stream_ops")
+                rd.seek(off, 0)
+                if rd.cur_data_pos_stream != off:
+                    ctx.violation("position-after-ss[stream>2GiB]", f"after seek({off},0) the reader reports position {rd.cur_data_pos_stream}", one); return
+                got = rd.cread(n).tobytes()
+                if got != model(off, n):
+                    ctx.violation("cread-content[stream>2GiB]", f"cread({n}) at stream byte {off} of a {total}-byte two-file stream differs from the files' bytes", one); return
+                if off + n < total and rd.cur_data_pos_stream != off + n:
+                    ctx.violation("position-after-cr[stream>2GiB]", f"after cread({n}) at {off} the reader reports {rd.cur_data_pos_stream}", one); return
+                rd.seek(off, 0); rd.seek(8, 1)
+                if rd.cur_data_pos_stream != off + 8:
+                    ctx.violation("position-after-sc[stream>2GiB]", f"seek({off},0); seek(8,1) -> position {rd.cur_data_pos_stream}", one); return
+                buf = bytearray(n)
+                rd.seek(off, 0)
+                k = rd.creadinto(buf)
+                if k != n or bytes(buf) != model(off, n):
+                    ctx.violation("creadinto-content[stream>2GiB]", f"creadinto({n}) at stream byte {off} returned {k} bytes / other content", one); return
+        rd.close()
+        fil = FilReader(paths, check_contiguity=False)
+        for off in sorted(marks):
+            st = off // nch
+            ctx.evaluated(); ctx.count("giant_stream_ops")
+            blk = fil.read_block(st, 2)
+            want = np.frombuffer(model(st * nch, 2 * nch), dtype=np.uint8).reshape(2, nch)
+            if not np.array_equal(blk.data.T.astype(np.uint8), want):
+                ctx.violation("read_block-content[stream>2GiB]", f"read_block({st},2) of a {total}-byte two-file stream differs from the files' bytes", one); return
+        ctx.nontrivial_case(one)
+    except Exception as exc:  # noqa: BLE001
+        ctx.violation(f"raised[stream>2GiB]:{type(exc).__name__}@{exc_site(exc)}", fmt_exc(exc), one)
+    finally:
+        for p in paths:
+            if os.path.exists(p):
+                os.unlink(p)
+
+
 def run_case(case, ctx):
+    if case["kind"] == "giant":
+        return _giant(case, ctx)
     kind = case["kind"]
     if kind in ("lattice", "history"):
         split = case["split"]
@@ -323,6 +409,8 @@ def run_case(case, ctx):
         if case.get("ragged") and len(model) != len(sigfile.encode_data(X, nbits)):
             ctx.count("regime:member_file_with_trailing_partial_sample")
         contig = case["contig"]
+        if not contig and case["hseed"] % 2 and len(paths) > 1:
+            ctx.count("regime:members_not_in_time_order")
         if case.get("dup") and len(paths) >= 1:
             # the same file listed more than once is still a list of files: the stream is their data sections in list order
             order = [[0, 0], [0, 1, 0], [1, 0, 0]][case["hseed"] % 3] if len(paths) >= 2 else [0, 0]
